@@ -21,7 +21,7 @@ ASSUMPTIONS = ["differential oracle: no hand-written expectation", "completion s
                "last) as in C07"]
 MIN_DISTINCT_OUTCOMES = 2
 
-VALID = ['O', 'AX', 'ZN', 'CH', 'FR', 'PA']
+VALID = ['O', 'O5', 'AX', 'ZN', 'CH', 'FR', 'PA']     # O5: an origin with the explicit reference 5
 REJECT = ['R:zone-type', 'R:zone-enum', 'R:zone-name', 'R:axis-type', 'R:param-ref', 'R:chan-cast', 'R:chan-type',
           'R:frame-type', 'R:origin-dup', 'R:set-value', 'R:set-units', 'R:tool-status',
           # rejections raised as RuntimeError (units for an attribute that cannot carry units), through both routes
@@ -46,7 +46,7 @@ def enabled_events(h, tier):
     nrej = len(h) - len(valid)
     if nrej < 2:
         for r in REJECT:
-            if r == 'R:origin-dup' and 'O' not in valid:
+            if r == 'R:origin-dup' and 'O' not in valid and 'O5' not in valid:
                 continue
             if r in ('R:set-value', 'R:set-units') and 'ZN' not in valid:
                 continue
@@ -140,7 +140,9 @@ def _run(sp):
     notes = []
     for op in sp['ops']:
         if op.get('kw', {}).get('origin_reference') == 'FIRST':
-            first = next(o for o in b.objs.values() if type(o).__name__ == 'OriginItem')
+            origins = [o for o in b.objs.values() if type(o).__name__ == 'OriginItem']
+            # the reference of an existing origin (one that can be requested explicitly, i.e. not 0, if there is one)
+            first = next((o for o in origins if o.origin_reference), origins[0])
             op = dict(op, kw=dict(op['kw'], origin_reference=first.origin_reference or 999999))
             if not first.origin_reference:
                 # origin reference 0 cannot be requested explicitly (0 means "choose"): use an unsatisfiable type
@@ -258,6 +260,22 @@ KIND_REJECT = {
 }
 
 
+# further rejected calls per kind, refused at other places of the add_* methods (before the set is looked up, while the
+# frame's channels are checked, by the name / reference checks of the item)
+KIND_REJECT_MORE = {
+    'channel': [{'data': [1, 2, 3]}, {'cast_dtype': 'not-a-dtype'}, {'dimension': [0.5]}, {'origin_reference': 'five'}],
+    'frame': [{'channels': {'$ref': 'C2'}}, {'channels': [{'$ref': 'Z'}]}, {'channels': []},
+              {'channels': [{'$ref': 'C2'}], 'index_type': 5}, {'channels': [{'$ref': 'C2'}], 'spacing': 'wide'}],
+    'zone': [{'maximum': [1, 2]}, {'origin_reference': 'five'}, {'domain': 5}],
+    'parameter': [{'values': [1, None]}, {'dimension': 'wide'}, {'zones': {'$ref': 'C'}}],
+    'axis': [{'coordinates': [1, None]}, {'axis_id': 5}],
+    'tool': [{'channels': [{'$ref': 'Z'}]}, {'parts': [{'$ref': 'C'}]}],
+    'origin': [{'creation_time': 'not a date', 'file_set_number': 3}, {'file_set_number': 'three',
+                                                                       'creation_time': S.FIXED_ORIGIN_KW['creation_time']},
+               {'file_number': 1.5, 'file_set_number': 3, 'creation_time': S.FIXED_ORIGIN_KW['creation_time']}],
+}
+
+
 def shards(tier):
     return [{'fw': f} for f in FAILS + OKS] + [{'kinds': True}, {'shared': True}]
 
@@ -276,11 +294,21 @@ def cases(shard, tier):
                     continue        # the rejected call is the very first call on the logical file: nothing to refer to
                 for named in (False, True):
                     yield {'kindrej': k, 'where': where, 'named': named}
+                    if where != 'rejected-assignment':
+                        for alt in range(len(KIND_REJECT_MORE.get(k, []))):
+                            if where == 'first-of-all' and '$ref' in str(KIND_REJECT_MORE[k][alt]):
+                                continue
+                            yield {'kindrej': k, 'where': where, 'named': named, 'alt': alt}
         # the logical file's FIRST add_origin call is refused after objects of other kinds exist; then an origin is added
         for named in (False, True):
             yield {'kindrej': 'origin', 'where': 'no-origin-yet', 'named': named}
             # ... and the origin that is accepted afterwards gets another reference than the refused one would have got
             yield {'kindrej': 'origin', 'where': 'no-origin-yet', 'named': named, 'retry_ref': 3}
+            # an add_origin refused because its reference is taken - naming the set of the existing origins, a new set,
+            # or a set that later origins go into ({directly, after an origin in yet another new set})
+            for rejset in ('same', 'NEWSET'):
+                for then in ('same', 'NEWSET', 'OTHER+NEWSET', 'NEWSET+OTHER'):
+                    yield {'kindrej': 'origin', 'where': 'dup-ref', 'named': named, 'rejset': rejset, 'then': then}
         return
     for final in FINALS:
         yield {'fw': [shard['fw']], 'final': final}
@@ -393,6 +421,10 @@ def _final_kwargs(final):
 def kind_specs(c):
     k = c['kindrej']
     bad, good = KIND_REJECT[k]
+    if c.get('alt') is not None:
+        bad = KIND_REJECT_MORE[k][c['alt']]
+        if k == 'origin':
+            good = dict(good)
     sn = {'set_name': 'NAMED'} if c['named'] else {}
     base = [S.op_lf(), S.op_origin(),
             S.op_add('channel', 'C', 'CHAN', data=S.arr_spec('uint8', [2], [1, 2])),
@@ -417,6 +449,14 @@ def kind_specs(c):
     else:
         full, clean = [rej, dict(rej, h='RJ2'), ok1], [ok1]
     mk = lambda ops: {'sul': {'max_record_length': 8192}, 'ops': base + ops, 'write': {}}
+    if c['where'] == 'dup-ref':
+        okw = dict(good)
+        nm = lambda x: {} if (x == 'same' and not c['named']) else {'set_name': 'NAMED' if x == 'same' else x}
+        oa = S.op_add(k, 'OA', 'ORIGIN-5', **dict(okw, origin_reference=5, **nm('same')))
+        rj = S.op_add(k, 'RJ', 'X', expect='raise', **dict(okw, origin_reference=5, **nm(c['rejset'])))
+        later = [S.op_add(k, f'OL{i}', f'LATER-{i}', **dict(okw, **nm(x))) for i, x in enumerate(c['then'].split('+'))]
+        return ({'sul': {'max_record_length': 8192}, 'ops': base[:2] + [oa, rj] + later + base[2:], 'write': {}},
+                {'sul': {'max_record_length': 8192}, 'ops': base[:2] + [oa] + later + base[2:], 'write': {}})
     if c['where'] == 'no-origin-yet':
         if c.get('retry_ref'):
             ok1 = S.op_add(k, 'OK1', 'X', **dict(good, origin_reference=c['retry_ref'], **sn))
